@@ -1557,3 +1557,419 @@ func runC14RingWeights(c *Ctx) {
 	}
 	reportK4(c, f, "ring weights independent of winding", undec, problem, fmt.Sprintf("+|A|/(|A|-|B|) for the shell, -|B|/(|A|-|B|) for a hole (%d sign combinations)", models))
 }
+
+// ---------------------------------------------------------------------------
+// C13.sorted / C01.renoded / C14.count / C12.center
+// ---------------------------------------------------------------------------
+
+func init() {
+	register(&Rule{
+		ID:    "C13.sorted",
+		Props: []string{"C13"},
+		Doc:   "the monotone chain always works on sorted points: in monotoneChain every return is dominated by the sort of the point list (sort.Slice / sort.Sort on the parameter) — the sort is not skipped on the strength of a cheaper test (e.g. 'X is already non-decreasing', which says nothing about the order of points sharing an X), because the hull then depends on the order of the input",
+		Floor: 1,
+		Run:   runC13Sorted,
+	})
+	register(&Rule{
+		ID:    "C01.renoded",
+		Props: []string{"C01", "C02"},
+		Doc:   "a geometry that goes into the overlay has been re-noded: the re-noding routines for lineal and areal geometries (reNodeLineString, reNodeMultiLineString, reNodePolygon, reNodeMultiPolygon, reNodeGeometryCollection) never return the geometry they were given — each result is rebuilt from re-noded parts — except under a test that it is empty; a 'nothing changed' shortcut keyed on a count lets repeated vertices (zero-length segments) and uncut crossings through",
+		Floor: 4,
+		Run:   runC01Renoded,
+	})
+	register(&Rule{
+		ID:    "C14.count",
+		Props: []string{"C14", "C20"},
+		Doc:   "the point average counts the points it sums: in the centroid routines an integer count that a sum is divided by is only ever incremented by 1, next to the addition of one point (under that point's ok flag) — adding NumPoints() of a member counts its EMPTY points too and drags the centroid towards nothing",
+		Floor: 0,
+		Run:   runC14Count,
+	})
+	register(&Rule{
+		ID:    "C12.center",
+		Props: []string{"C12"},
+		Doc:   "Envelope.Center interpreted on small integer envelopes and on envelopes symmetric about the origin up to +-1e308: the centre is ((min.X+max.X)/2, (min.Y+max.Y)/2) exactly — in particular finite and inside the envelope when max-min is not representable (a centre computed as min + (max-min)/2 overflows to +Inf there) — and the empty envelope has an empty centre",
+		Floor: 1,
+		Run:   runC12Center,
+	})
+}
+
+func runC13Sorted(c *Ctx) {
+	f := c.P.Func("geom.monotoneChain")
+	if f == nil {
+		c.Errorf("anchor geom.monotoneChain does not resolve")
+		return
+	}
+	fn := FuncName(f)
+	var sorts []ssa.CallInstruction
+	eachCall(f, func(ci ssa.CallInstruction) {
+		n := calleeName(ci)
+		if strings.HasPrefix(n, "sort.") {
+			sorts = append(sorts, ci)
+			return
+		}
+		// a helper split off that sorts its argument
+		if h := staticCallee(ci); h != nil && isNewHelper(h) {
+			eachCall(h, func(c2 ssa.CallInstruction) {
+				if strings.HasPrefix(calleeName(c2), "sort.") {
+					sorts = append(sorts, ci)
+				}
+			})
+		}
+	})
+	if len(sorts) == 0 {
+		c.Bad(f.Pos(), fn, "points sorted before the sweep", "monotoneChain no longer sorts its points")
+		return
+	}
+	bad := ""
+	for _, r := range returnsOf(f) {
+		dom := false
+		for _, s := range sorts {
+			if s.Block() == r.Block() || s.Block().Dominates(r.Block()) {
+				dom = true
+			}
+		}
+		if !dom {
+			bad = "the return at " + c.P.Pos(instrPos(r)) + " can be reached without the sort having run"
+		}
+	}
+	c.Check(bad == "", f.Pos(), fn, "points sorted before the sweep", "the sort dominates every return", bad+": on that path the sweep runs over points in input order, so the hull depends on how the input happens to be ordered")
+}
+
+func runC01Renoded(c *Ctx) {
+	n := 0
+	for _, name := range []string{"reNodeLineString", "reNodeMultiLineString", "reNodePolygon", "reNodeMultiPolygon", "reNodeGeometryCollection"} {
+		f := c.P.Func("geom." + name)
+		if f == nil {
+			c.Errorf("anchor geom.%s does not resolve", name)
+			continue
+		}
+		n++
+		fn := FuncName(f)
+		bad := ""
+		for _, r := range returnsOf(f) {
+			v := r.Results[0]
+			isParam := false
+			switch x := v.(type) {
+			case *ssa.Parameter:
+				isParam = x == f.Params[0]
+			case *ssa.UnOp:
+				if al, ok := x.X.(*ssa.Alloc); ok && x.Op == token.MUL {
+					if st := uniqueStore(al); st == ssa.Value(f.Params[0]) {
+						isParam = true
+					}
+				}
+			}
+			if !isParam {
+				continue
+			}
+			// allowed under an emptiness test of the parameter
+			okEmpty := false
+			for _, g0 := range guardsAtBlock(r.Block()) {
+				for _, g := range expandGuard(g0) {
+					if call, ok := g.Cond.(*ssa.Call); ok && g.Truth {
+						if cal := staticCallee(call); cal != nil && cal.Name() == "IsEmpty" {
+							okEmpty = true
+						}
+					}
+				}
+			}
+			if !okEmpty {
+				bad = "the input geometry itself is returned at " + c.P.Pos(instrPos(r))
+			}
+		}
+		c.Check(bad == "", f.Pos(), fn, "result rebuilt from re-noded parts", "never the input itself (unless empty)", bad+": on that path the geometry enters the overlay without its repeated vertices removed and its crossings cut")
+	}
+	if n < 4 {
+		c.Errorf("only %d re-noding routines found, expected >= 4", n)
+	}
+}
+
+func runC14Count(c *Ctx) {
+	n := 0
+	fam := centroidFamily(c)
+	seenF := map[*ssa.Function]bool{}
+	for _, f := range fam {
+		seenF[f] = true
+	}
+	// helpers split off the centroid routines (e.g. accumulatePoint(pt, &count, &sum)) belong to them
+	for i := 0; i < len(fam); i++ {
+		eachCall(fam[i], func(ci ssa.CallInstruction) {
+			if h := staticCallee(ci); h != nil && isNewHelper(h) && len(h.Blocks) > 0 && !seenF[h] {
+				seenF[h] = true
+				fam = append(fam, h)
+			}
+		})
+	}
+	for _, f := range fam {
+		fn := FuncName(f)
+		eachInstr(f, func(in ssa.Instruction) {
+			st, ok := in.(*ssa.Store)
+			if !ok {
+				return
+			}
+			bt, ok := st.Val.Type().Underlying().(*types.Basic)
+			if !ok || bt.Info()&types.IsInteger == 0 {
+				return
+			}
+			bo, ok := st.Val.(*ssa.BinOp)
+			if !ok || bo.Op != token.ADD {
+				return
+			}
+			ld, ok := bo.X.(*ssa.UnOp)
+			if !ok || ld.Op != token.MUL || ld.X != st.Addr {
+				return
+			}
+			// an integer accumulator x = x + …; is it a divisor of a float division somewhere (a count of points)?
+			_, viaPointerParam := st.Addr.(*ssa.Parameter)
+			if !cellUsedAsDivisor(st.Addr) && !(viaPointerParam && isNewHelper(rootFunc(f))) {
+				return
+			}
+			n++
+			k, isC := constInt(bo.Y)
+			c.Check(isC && k == 1, st.Pos(), fn, "increment of the point count", "the count grows by 1 per point added", "the count that the sum is divided by grows by something other than 1 (e.g. a member's NumPoints(), which includes its EMPTY points): the average is taken over more points than were summed")
+		})
+	}
+	if n < 1 {
+		c.Triv(token.NoPos, "-", "scan", "no integer point count is divided by in the centroid routines")
+	}
+}
+
+// cellUsedAsDivisor: the variable (local cell or captured variable) is loaded, converted to float and divided by — here or in the enclosing/enclosed functions
+func cellUsedAsDivisor(addr ssa.Value) bool {
+	var cells []ssa.Value
+	cells = append(cells, addr)
+	if fv, ok := addr.(*ssa.FreeVar); ok {
+		fn := fv.Parent()
+		if par := fn.Parent(); par != nil {
+			for i, x := range fn.FreeVars {
+				if x == fv {
+					eachInstr(par, func(in ssa.Instruction) {
+						if mc, ok := in.(*ssa.MakeClosure); ok && mc.Fn == ssa.Value(fn) && i < len(mc.Bindings) {
+							cells = append(cells, mc.Bindings[i])
+						}
+					})
+				}
+			}
+		}
+	}
+	for _, cell := range cells {
+		if cell.Referrers() == nil {
+			continue
+		}
+		for _, r := range *cell.Referrers() {
+			ld, ok := r.(*ssa.UnOp)
+			if !ok || ld.Op != token.MUL {
+				continue
+			}
+			for _, r2 := range *ld.Referrers() {
+				cv, ok := r2.(*ssa.Convert)
+				if !ok {
+					continue
+				}
+				for _, r3 := range *cv.Referrers() {
+					if bo, ok := r3.(*ssa.BinOp); ok && bo.Op == token.QUO && bo.Y == ssa.Value(cv) {
+						return true
+					}
+				}
+			}
+		}
+	}
+	return false
+}
+
+func runC12Center(c *Ctx) {
+	f := c.P.Func("geom.(Envelope).Center")
+	if f == nil {
+		c.Errorf("anchor geom.(Envelope).Center does not resolve")
+		return
+	}
+	inl := func(g *ssa.Function) bool { return pkgOf(g) == "geom" && g != f }
+	problem, undec := "", ""
+	models := 0
+	type env struct{ x0, y0, x1, y1 float64 }
+	cases := []env{{0, 0, 2, 4}, {1, 2, 1, 2}, {-3, -1, 5, 0}, {-1e308, -1e308, 1e308, 1e308}, {-1e308, 0, 1e308, 1}, {-4, -8, 4, 8}}
+	for _, e := range cases {
+		models++
+		m := &Model{Num: map[string]float64{"$0.min.X": e.x0, "$0.min.Y": e.y0, "$0.max.X": e.x1, "$0.max.Y": e.y1}, Bool: map[string]bool{"$0.nonEmpty": true}, Missing: map[string]bool{}}
+		it := &k4interp{p: c.P, m: m, mem: map[string]k4val{}, inline: inl}
+		res, err := it.call(f, []k4val{{kind: 3, s: "$0"}}, nil)
+		if err != nil || len(res) != 1 || res[0].kind != 3 {
+			undec = fmt.Sprintf("%v %v %s", err, res, trunc(missingList(m)))
+			break
+		}
+		rd := func(k string) (float64, bool) {
+			for _, pre := range []string{".coords.XY", ".coords"} {
+				v, e := it.lookup(res[0].s+pre+k, f64T)
+				if e == nil && v.kind == 2 {
+					return v.f, true
+				}
+			}
+			return 0, false
+		}
+		x, ok1 := rd(".X")
+		y, ok2 := rd(".Y")
+		full, e3 := it.lookup(res[0].s+".full", boolT)
+		if !ok1 || !ok2 || e3 != nil {
+			undec = "cannot read the returned point: " + trunc(missingList(m))
+			break
+		}
+		wx, wy := (e.x0+e.x1)/2, (e.y0+e.y1)/2
+		if !full.b || x != wx || y != wy {
+			problem = fmt.Sprintf("the centre of [%v,%v]x[%v,%v] is (%v %v non-empty=%v), expected (%v %v)", e.x0, e.x1, e.y0, e.y1, x, y, full.b, wx, wy)
+			break
+		}
+	}
+	if problem == "" && undec == "" {
+		models++
+		m := &Model{Num: map[string]float64{}, Bool: map[string]bool{"$0.nonEmpty": false}, Missing: map[string]bool{}}
+		it := &k4interp{p: c.P, m: m, mem: map[string]k4val{}, inline: inl}
+		res, err := it.call(f, []k4val{{kind: 3, s: "$0"}}, nil)
+		if err != nil || len(res) != 1 {
+			undec = fmt.Sprintf("%v %v", err, res)
+		} else if res[0].s != "zero" {
+			if full, e := it.lookup(res[0].s+".full", boolT); e != nil || full.b {
+				problem = "the centre of the empty envelope is not the empty point"
+			}
+		}
+	}
+	reportK4(c, f, "centre = midpoint of the bounds", undec, problem, fmt.Sprintf("(min+max)/2 on both axes, finite for envelopes spanning more than MaxFloat64, empty for empty (%d models)", models))
+}
+
+// ---------------------------------------------------------------------------
+// C19.onesided: a closeness test without the absolute value
+// ---------------------------------------------------------------------------
+
+func init() {
+	register(&Rule{
+		ID:    "C19.onesided",
+		Props: []string{"C19", "C20"},
+		Doc:   "a closeness test is two-sided: no floating-point difference a - b is compared with a small positive constant (`a - b < 1e-12`) without an absolute value in geom, rtree or carto — such a test also holds for every a < b, however far apart (e.g. standard parallels given in descending order are taken for coincident)",
+		Floor: 0,
+		Run:   runC19OneSided,
+	})
+}
+
+func runC19OneSided(c *Ctx) {
+	n := 0
+	for _, f := range c.P.Funcs {
+		if !c.P.InRepo(f) || len(f.Blocks) == 0 {
+			continue
+		}
+		fn := FuncName(f)
+		eachInstr(f, func(in ssa.Instruction) {
+			bo, ok := in.(*ssa.BinOp)
+			if !ok || !isFloat(bo.X.Type()) {
+				return
+			}
+			var diff, k ssa.Value
+			switch bo.Op {
+			case token.LSS, token.LEQ:
+				diff, k = bo.X, bo.Y
+			case token.GTR, token.GEQ:
+				diff, k = bo.Y, bo.X
+			default:
+				return
+			}
+			kc, ok := k.(*ssa.Const)
+			if !ok {
+				return
+			}
+			kv, ok := constantFloat(kc)
+			if !ok || kv <= 0 || kv > 1e-3 {
+				return
+			}
+			sub, ok := stripLoad(diff).(*ssa.BinOp)
+			if !ok || sub.Op != token.SUB {
+				return
+			}
+			n++
+			c.Bad(bo.Pos(), fn, "one-sided closeness test", fmt.Sprintf("a difference is compared with the small constant %g without an absolute value: the test also holds whenever the first operand is smaller than the second, however far apart they are", kv))
+		})
+	}
+	c.OK(token.NoPos, "-", "scan", fmt.Sprintf("no difference compared with a small positive constant without |.| (%d found)", n))
+}
+
+// ---------------------------------------------------------------------------
+// C20.membreak: an accumulating member loop is not left by break
+// ---------------------------------------------------------------------------
+
+func init() {
+	register(&Rule{
+		ID:    "C20.membreak",
+		Props: []string{"C20", "C02", "C15", "C14", "C12"},
+		Doc:   "a loop that accumulates over the members of a geometry looks at all of them: in a member loop whose body appends to a list, updates a map or adds to a running total, no `break` leaves the loop on a condition about the current member (closed, empty, of some type) without having recorded anything — that is a `continue` written as `break`, and every member after it is dropped (a ring listed before the open lines of a MultiLineString hides their end points from Boundary). Breaks that follow an assignment of the found element (search loops) are not concerned",
+		Floor: 10,
+		Run:   runC20MemBreak,
+	})
+}
+
+func runC20MemBreak(c *Ctx) {
+	n := 0
+	for _, f := range c.P.Funcs {
+		if pkgOf(f) != "geom" || len(f.Blocks) == 0 || strings.Contains(c.P.File(f.Pos()), "dcel_debug.go") {
+			continue
+		}
+		fn := FuncName(f)
+		for _, h := range f.Blocks {
+			if _, ok := loopOverMembers(h); !ok {
+				continue
+			}
+			loop := naturalLoop(h)
+			if loop == nil {
+				continue
+			}
+			// does the body accumulate?
+			acc := false
+			for b := range loop {
+				for _, in := range b.Instrs {
+					switch x := in.(type) {
+					case *ssa.MapUpdate:
+						acc = true
+					case *ssa.Call:
+						if bi, ok := x.Call.Value.(*ssa.Builtin); ok && bi.Name() == "append" {
+							acc = true
+						}
+					case *ssa.Store:
+						if bo, ok := x.Val.(*ssa.BinOp); ok && bo.Op == token.ADD {
+							if ld, ok := bo.X.(*ssa.UnOp); ok && ld.Op == token.MUL && ld.X == x.Addr {
+								acc = true
+							}
+						}
+					}
+				}
+			}
+			if !acc {
+				continue
+			}
+			n++
+			bad := ""
+			for _, e := range bodyExits(h, loop) {
+				if returnAfter(e.to) != nil || endsInPanic(e.to) || inEnclosingLoop(f, h, e.to) {
+					continue
+				}
+				ifi, ok := e.from.Instrs[len(e.from.Instrs)-1].(*ssa.If)
+				if !ok {
+					// an unconditional jump out of the loop from a body block: `…; break` after some work
+					continue
+				}
+				// the breaking edge leaves straight from a test: nothing was recorded for this member on that edge
+				if call, ok := ifi.Cond.(*ssa.Call); ok {
+					if cal := staticCallee(call); cal != nil && cal.Signature.Recv() != nil && pkgOf(cal) == "geom" {
+						bad = "left by a break at " + c.P.Pos(condPos(ifi)) + " on a test of the current member (" + cal.Name() + ")"
+					}
+				}
+				if ex, ok := ifi.Cond.(*ssa.Extract); ok {
+					if call, ok := ex.Tuple.(*ssa.Call); ok {
+						if cal := staticCallee(call); cal != nil && cal.Signature.Recv() != nil && pkgOf(cal) == "geom" {
+							bad = "left by a break at " + c.P.Pos(condPos(ifi)) + " on the flag of " + cal.Name() + "() of the current member"
+						}
+					}
+				}
+			}
+			c.Check(bad == "", firstPos(h), fn, fmt.Sprintf("accumulating member loop #%d", loopOrdinal(f, h)), "never left by a bare break on a property of the current member", "a loop that accumulates over all members is "+bad+": the members after it are never accumulated (a `continue` was meant)")
+		}
+	}
+	if n < 10 {
+		c.Errorf("only %d accumulating member loops found, expected >= 10", n)
+	}
+}
